@@ -159,10 +159,14 @@ impl<T: Eq + Hash, S: BuildHasher> ShardedSet<T, S> {
             write_lock
         } else {
             // Write contention.  Try reading first to see if the entry already exists.
+            #[cfg(isographlabs_isograph_verif)]
+            crate::verif::verif_point(crate::verif::SHARD_TRY_WRITE_FAILED);
             if let Some(t) = shard.read().get(hash, |other| q == other.borrow()) {
                 // Already exists.
                 return Ok(t.clone());
             }
+            #[cfg(isographlabs_isograph_verif)]
+            crate::verif::verif_point(crate::verif::SHARD_READ_MISS_BEFORE_WRITE);
             // Unconditionally write lock.
             shard.write()
         };
